@@ -102,6 +102,23 @@ class Length:
         if name in ("scipy.fft.fft", "scipy.fft.ifft", "numpy.fft.fft", "numpy.fft.ifft", "numpy.real", "numpy.imag",
                     "numpy.abs", "numpy.array", "numpy.asarray", "numpy.conj"):
             return fa[0] if isinstance(fa[0], L) else L("unk")
+        if name in ("scipy.fft.irfft", "numpy.fft.irfft"):
+            # irfft(X, n=K) uses K//2 + 1 spectrum bins (it silently truncates / zero-pads X otherwise) and returns K samples
+            n = fk.get("n", fa[1] if len(fa) > 1 else None)
+            x = fa[0] if fa else None
+            if n is not None and n.kind == "int" and isinstance(x, L) and x.kind == "arr":
+                need = n.lin.scale(Fr(1, 2)) + Lin(c=1)
+                ok = x.lin == need
+                s.obligations.append(("irfft operand length == n/2 + 1", repr(x), f"Arr[{need}]", ok))
+                if not ok:
+                    return L("bad", why=f"irfft over {x.lin} bins for n = {n.lin}: needs {need} (Nyquist bin dropped or padded)")
+                return L("arr", n.lin)
+            return L("unk")
+        if name in ("scipy.fft.rfft", "numpy.fft.rfft"):
+            x = fa[0] if fa else None
+            if isinstance(x, L) and x.kind == "arr":
+                return L("arr", x.lin.scale(Fr(1, 2)) + Lin(c=1))
+            return L("unk")
         if name in ("scipy.fft.fftfreq", "numpy.fft.fftfreq"):
             n = fk.get("n", fa[0] if fa else None)
             return L("arr", n.lin) if n is not None and n.kind == "int" else L("unk")
